@@ -58,6 +58,12 @@ theorem chain_nil_iff {s : State} {h l} (c : Chain s h l) : h = END ↔ l = [] :
   · simp [e, e']
   · simp [e', e.2]
 
+theorem head_end_iff {s : State} (hc : Chain s s.head s.abs) : (s.head != END) = !s.abs.isEmpty := by
+  have := chain_nil_iff hc
+  cases h : s.abs with
+  | nil => simp [h] at this; simp [this]
+  | cons a r => simp [h] at this; simp [this]
+
 theorem lnext_frame {s s' : State} {a b : Nat} (hn : s'.next a = s.next a)
     (hp : ∀ t, PendC s t a b → ∃ t', PendC s' t' a b) (h : lnext s a b) : lnext s' a b := by
   rcases h with ⟨h1, h2⟩ | ⟨h1, t, h2⟩
@@ -118,6 +124,7 @@ structure Inv (c : Cfg) (s : State) : Prop where
   bufInit : ∀ t a, (a, 0) ∈ s.buf t → s.pc t = .pushX a
   bufC : ∀ t a v, (a, v) ∈ s.buf t → v ≠ 0 → s.next a = 0 ∧ isNode a ∧
             (s.nst a = .inStack ∨ ∃ u, u ≠ t ∧ s.nst a = .limbo u)
+  bufNd : ∀ t, (s.buf t).Nodup
   pend_pp : ∀ t u a b b', s.pc t = .pushSt a b → s.pc u = .pushSt a b' → t = u
   pend_pb : ∀ t u a b b', s.pc t = .pushSt a b → (a, b') ∈ s.buf u → b' = 0
   pend_bb : ∀ t u a b b', (a, b) ∈ s.buf t → (a, b') ∈ s.buf u → b ≠ 0 → b' ≠ 0 → t = u ∧ b = b'
@@ -150,7 +157,7 @@ macro "rest_tac" : tactic => `(tactic| (
 
 theorem inv_pushBegin (c : Cfg) {s s' : State} (h : Inv c s) (t n)
     (st : step c s (.pushBegin t n) = some s') : Inv c s' := by
-  obtain ⟨hc, hpc, hnd, hpnd, habs, hpriv, hpcX, hown, hpcSt, hbI, hbC, hpp, hpb, hbb, hr1, hr2, hr3, hh⟩ := h
+  obtain ⟨hc, hpc, hnd, hpnd, habs, hpriv, hpcX, hown, hpcSt, hbI, hbC, hbN, hpp, hpb, hbb, hr1, hr2, hr3, hh⟩ := h
   simp only [step] at st
   split at st
   · next g =>
@@ -171,7 +178,7 @@ theorem inv_pushBegin (c : Cfg) {s s' : State} (h : Inv c s) (t n)
 
 theorem inv_pushX (c : Cfg) {s s' : State} (h : Inv c s) (t)
     (st : step c s (.pushX t) = some s') : Inv c s' := by
-  obtain ⟨hc, hpc, hnd, hpnd, habs, hpriv, hpcX, hown, hpcSt, hbI, hbC, hpp, hpb, hbb, hr1, hr2, hr3, hh⟩ := h
+  obtain ⟨hc, hpc, hnd, hpnd, habs, hpriv, hpcX, hown, hpcSt, hbI, hbC, hbN, hpp, hpb, hbb, hr1, hr2, hr3, hh⟩ := h
   simp only [step] at st
   split at st
   · next n hp =>
@@ -199,17 +206,14 @@ theorem inv_pushX (c : Cfg) {s s' : State} (h : Inv c s) (t)
         frame_tac
       · simp only [List.nodup_cons]; exact ⟨hnabs, hnd⟩
       case hist =>
-        have e : (s.head != END) = !s.abs.isEmpty := by
-          have := chain_nil_iff hc
-          cases h : s.abs <;> simp_all
-        exact hh.step t (.push n) (by simp [apply, e])
+        exact hh.step t (.push n) (by simp [apply, head_end_iff hc])
       rest_tac
     · simp at st
   all_goals (first | (simp at st; done) | skip)
 
 theorem inv_pushSt (c : Cfg) {s s' : State} (h : Inv c s) (t)
     (st : step c s (.pushSt t) = some s') : Inv c s' := by
-  obtain ⟨hc, hpc, hnd, hpnd, habs, hpriv, hpcX, hown, hpcSt, hbI, hbC, hpp, hpb, hbb, hr1, hr2, hr3, hh⟩ := h
+  obtain ⟨hc, hpc, hnd, hpnd, habs, hpriv, hpcX, hown, hpcSt, hbI, hbC, hbN, hpp, hpb, hbb, hr1, hr2, hr3, hh⟩ := h
   simp only [step] at st
   split at st
   · next n o hp =>
@@ -231,7 +235,7 @@ theorem inv_pushSt (c : Cfg) {s s' : State} (h : Inv c s) (t)
 
 theorem inv_flush (c : Cfg) {s s' : State} (h : Inv c s) (t)
     (st : step c s (.flush t) = some s') : Inv c s' := by
-  obtain ⟨hc, hpc, hnd, hpnd, habs, hpriv, hpcX, hown, hpcSt, hbI, hbC, hpp, hpb, hbb, hr1, hr2, hr3, hh⟩ := h
+  obtain ⟨hc, hpc, hnd, hpnd, habs, hpriv, hpcX, hown, hpcSt, hbI, hbC, hbN, hpp, hpb, hbb, hr1, hr2, hr3, hh⟩ := h
   simp only [step] at st
   split at st
   · next m v rest hb =>
@@ -273,7 +277,18 @@ theorem inv_flush (c : Cfg) {s s' : State} (h : Inv c s) (t)
       refine chain_congr (hpc u) ?_
       intro a ha b hl
       exact key a (Or.inr ⟨u, (hpriv u a).1 ha⟩) b hl
+    have hsub : ∀ x, x ∈ rest → x ∈ s.buf t := by intro x hx; rw [hb]; simp [hx]
+    have hsplit : ∀ x, x ∈ s.buf t → x = (m, v) ∨ x ∈ rest := by intro x hx; rw [hb] at hx; simpa using hx
+    have hm : (m, v) ∈ s.buf t := by rw [hb]; simp
+    have hnd2 := hbN t
+    rw [hb, List.nodup_cons] at hnd2
+    clear key hc hpc hh
+    have hmI : v = 0 → s.pc t = .pushX m := by intro e; subst e; exact hbI t m hm
+    have hmC := hbC t m v hm
+    have hmpb : ∀ t1 o, s.pc t1 = .pushSt m o → v = 0 := fun t1 o h => hpb t1 t m o v h hm
+    have hmbb : ∀ u b, (m, b) ∈ s.buf u → b ≠ 0 → v ≠ 0 → u = t ∧ b = v := fun u b h1 h2 h3 => hbb u t m b v h1 hm h2 h3
     all_goals (simp only [upd, hasRight] at *)
+
     all_goals (first | grind | (trace_state; sorry))
   · simp at st
 
